@@ -185,8 +185,6 @@ Lemma allclose1_refl x : allclose1 x x = true.
 Proof.
   unfold allclose1. apply Qcleb_le. replace (x - x) with 0 by ring.
   unfold Qcabs at 1. rewrite Qcltb_irrefl.
-  assert (H0 : 0 <= atol) by (apply Qcleb_le; vm_compute; reflexivity).
-  assert (H1 : 0 <= rtol) by (apply Qcleb_le; vm_compute; reflexivity).
   assert (H2 : 0 <= Qcabs x).
   { unfold Qcabs. destruct (Qcltb x 0) eqn:E. apply Qcltb_lt in E. qc2q; lra. apply Qcltb_ge in E. exact E. }
   qc2q. nra.
